@@ -207,7 +207,8 @@ class C15(Prop):
         "ct2wuss_total", "wuss_ct_wuss_ct_total", "removeBroken_total",
         "ct2wuss_ok_iff", "ct2wuss_ok_of_few_pk", "ct2wuss_fails_needs_27", "wuss_few_pk_roundtrip",
         "markFragments_spec", "reverseComplement_spec", "reverseComplement_rejects", "addComment_addGF_spec",
-        "simple_pk_roundtrip", "ct2simplewuss_total", "ct2simplewuss_ok_of_few_pk", "wuss_ct_simplewuss_ct_total")]
+        "simple_pk_roundtrip", "ct2simplewuss_total", "ct2simplewuss_ok_of_few_pk", "wuss_ct_simplewuss_ct_total",
+        "wuss2ct_iff_class_labelling", "wussReverse_pairs", "reverseComplement_ss_pairs")]
     claimed = True
     technique = ("Lean 4 proof about an executable hand model of esl_msa.c / esl_wuss.c (in-place compaction loop = filter-by-mask on every aligned field, well-formedness invariants, "
                  "tag-table rebuild of SequenceSubset, mode-conversion and reverse-complement identities over alphabet tables regenerated from the tree, 27-stack WUSS reader = 27 Dyck recognisers, "
@@ -222,17 +223,26 @@ class C15(Prop):
                   "its table is a fixed-point-free involution joining matching symbols, nested when the string has no pseudoknot letters; RemoveBrokenBasepairs keeps exactly the pairs with both partners "
                   "retained; UNCONDITIONAL nested round trip: esl_ct2wuss and esl_ct2simplewuss succeed on every symmetric nested table and wuss2ct(ct2wuss ct) = ct, hence wuss->ct->wuss->ct = id and 'SS stays balanced WUSS with exactly "
                   "the retained pairs' for every letter-free SS line through repair + compaction; esl_wuss_reverse involutive. The hand model is tied to the working tree by an exact field-by-field differential run; "
+                  "Round 4: esl_ct2wuss / esl_ct2simplewuss total (eslOK or 'not enough letters'), success for <= 26 pseudoknotted pairs, pseudoknotted round trip for both, exact surviving pairs "
+                  "after repair + compaction for SS_cons and every per-sequence SS through every column-removing entry point. "
                   "monitors restate the property on the implementation's own dumps against independent Python readers.")
-    level_note = ("Round 3: the alignment-level statement columnSubset_msa_sscons_pairs (SS_cons of the alignment returned by a DNA/RNA esl_msa_ColumnSubset = exactly the retained pairs, renumbered, "
-                  "for nested and pseudoknotted lines); esl_msa_Compare / CompareMandatory / CompareOptional modelled line by line and PROVED to return eslOK iff the documented fields agree "
-                  "(compare_ok_iff; never any status but eslOK/eslFAIL, never an out-of-bounds read; unparsed markup and abc ignored); esl_msa_Hash / CheckUniqueNames = names distinct; "
-                  "esl_msa_Checksum = Jenkins hash of the concatenated rows; ConvertDegen2X / SymConvert / SetDefaultWeights keep the alignment well formed and change exactly what they document; "
-                  "ReasonableRF (useconsseq=FALSE) shape; esl_sq_Digitize/Textize/ReverseComplement/ConvertDegen2X on a sequence fetched from an alignment (round trips, what is kept and what is discarded). Round 2: the pseudoknotted round trip is now PROVED (pk_roundtrip: for every symmetric table, crossing pairs included, esl_ct2wuss = eslOK implies wuss2ct(ct2wuss ct) = ct; invariant over "
-                  "the rb[]/auxpk lettering loop), hence wuss->ct->wuss->ct preserves the pair table of ANY balanced WUSS string (wuss_ct_wuss_ct_pk), RemoveBrokenBasepairs spells exactly the retained pairs "
-                  "(removeBroken_pairs_pk) and the compacted SS line reads as those pairs renumbered (compacted_pairs, columnSubset_pairs_pk). Remaining conditions: for tables WITH crossing pairs the "
-                  "theorems are conditional on esl_ct2wuss returning eslOK (it may refuse, eslEINVAL documented, a table whose greedy lettering needs more than A..Z; on nested / letter-free input success "
-                  "is proved). Trusted: Lean kernel + propext/Classical.choice/Quot.sound; fidelity of the hand model is checked, not proved, by the differential run; FlushLeftInserts is modelled as an "
-                  "append-only output (b <= a in the C loop); float thresholds of MarkFragments are evaluated by the driver (L0).")
+    level_note = ("Round 4: esl_ct2wuss AND esl_ct2simplewuss are now TOTAL on every symmetric pair table (ct2wuss_total, ct2simplewuss_total): eslOK or the documented eslEINVAL "
+                  "'not enough letters' - never an out-of-bounds access of ct/cct/ss/rb[26], never 'cannot find left partner', never eslEINCONCEIVABLE, never eslFAIL 'found x out of y pairs' "
+                  "(npairs_reached is proved equal to the number of pairs); ct2wuss_ok_iff: eslOK iff the greedy lettering does not run out of A..Z; combinatorial sufficient condition "
+                  "ct2wuss_ok_of_few_pk / ct2simplewuss_ok_of_few_pk: at most 26 pseudoknotted pairs (q < p < ct[q] < ct[p]) => converted and read back identically (bound attained: the 27-pair witness is "
+                  "refused; not necessary: a 27-pair helix takes one letter) - the monitors tolerate eslEINVAL only above that proved bound; the pseudoknotted round trip is proved for esl_ct2simplewuss "
+                  "too (simple_pk_roundtrip); hence wuss->ct->wuss->ct and RemoveBrokenBasepairsFromSS are identity-or-documented-failure on EVERY balanced string (wuss_ct_wuss_ct_total, "
+                  "removeBroken_total). compaction_pairs_exact + compaction_entry_points: after the repair + compaction of ColumnSubset / MinimGaps / NoGaps (digital DNA/RNA) / MinimGapsText / NoGapsText "
+                  "(fix_bps) SS_cons and EVERY per-sequence SS spell exactly the pairs with both columns retained, renumbered by the column map, rows are the filtered original rows, alignment well formed. "
+                  "sequenceSubset_markup_exact: every slot of the subset's GS/GR tables is the slot of the retained sequence of that rank (sparse tags: none stays none). wuss2ct_iff_class_labelling: esl_wuss2ct returns ct IFF ct is a symmetric table and the string a class-nested labelling of it (complete characterisation of the reader); wussReverse_pairs: esl_wuss_reverse mirrors the pair set of every balanced string, hence reverseComplement_ss_pairs for SS_cons and every per-sequence SS. New specs: markFragments_spec "
+                  "(span rule of esl_msa_MarkFragments), reverseComplement_spec (field by field, well-formedness kept), addComment_addGF_spec. "
+                  "Round 3: columnSubset_msa_sscons_pairs; esl_msa_Compare / CompareMandatory / CompareOptional = eslOK iff the documented fields agree; esl_msa_Hash / CheckUniqueNames; "
+                  "esl_msa_Checksum = Jenkins hash of the concatenated rows; ConvertDegen2X / SymConvert / SetDefaultWeights; ReasonableRF (useconsseq=FALSE) shape; esl_sq_Digitize/Textize/"
+                  "ReverseComplement/ConvertDegen2X. Round 2: pk_roundtrip (invariant over the rb[]/auxpk lettering loop). "
+                  "Remaining: the exact predicate of ct2wuss_ok_iff is the lettering run itself (no closed form: a letter is re-used only past its right bound and letters grow within a batch); "
+                  "ReasonableRF with useconsseq=TRUE not modelled (in text mode it dereferences msa->abc == NULL: caller contract, "
+                  "no caller in easel). Trusted: Lean kernel + propext/Classical.choice/Quot.sound; fidelity of the hand model is checked, not proved, by the differential run; FlushLeftInserts is "
+                  "modelled as an append-only output (b <= a in the C loop); float thresholds of MarkFragments are evaluated by the driver (L0).")
     diverge_is_violation = True
     fault_is_output = True       # faults are classified by monitor() (known finding vs. new)
     trusted_base = ["hand model of esl_msa.c/esl_wuss.c tied by exact field-by-field differential run (h_msaops.c, ASan+UBSan build of the working tree)",
@@ -243,7 +253,7 @@ class C15(Prop):
                    "MarkFragments thresholds evaluated in binary32/binary64 by the driver (L0); esl_msa_Copy modelled through Create+Copy only",
                    "esl_msa_Compare model: an optional per-sequence array is non-NULL iff one of its entries is (checked by the harness on every compared alignment, 'repinv='); "
                    "esl_DCompare_old / esl_FCompare_old are parameters of the model and the theorems, evaluated in binary64/binary32 by the driver (L0)",
-                   "esl_msa_ReasonableRF: only useconsseq=FALSE is modelled (weight arithmetic a parameter, binary64 in the driver)",
+                   "esl_msa_ReasonableRF: only useconsseq=FALSE is modelled (weight arithmetic a parameter, binary64 in the driver); useconsseq=TRUE needs a digital alignment (text mode: msa->abc is NULL)",
                    "esl_sq.c: FetchFromMSA, Digitize, Textize, ReverseComplement, ConvertDegen2X are modelled on the observable content of the sequence object (name/acc/desc/source, residues, ss, extra "
                    "markup, start/end, mode)",
                    "not modelled: esl_msa_Sample, esl_msa_GuessAlphabet, esl_msa_Format* (printf wrappers over the modelled Set*), esl_msa_Expand/Sizeof, esl_sq_Copy/Compare/Grow/Block*/CountResidues/Checksum"]
@@ -254,6 +264,11 @@ class C15(Prop):
     # ------------------------------------------------------------------ generated tables
     def generated(self, ctx):
         txt = c15_abc_tables.dump(ctx.src, ctx.work, SAN_FLAGS)
+        # the monitors' own view of the alphabets (K, Kp, symbols) is regenerated from the same dump of the working tree
+        lines = txt.strip().split("\n")
+        for k in range(0, len(lines), 4):
+            _, nm, _ty, K, Kp = lines[k].split()
+            ABC[nm] = (int(K), int(Kp), "".join(chr(int(x)) for x in lines[k + 1].split()[1:]))
         return {"EaselModel/Msa/AbcTables.lean": c15_abc_tables.to_lean(txt)}
 
     def canonical(self, line):
